@@ -392,6 +392,34 @@ def ob_result_other(sim, seed):
         field = Field(mesh.groupElem, 2)
         s = Simulations.WeakForms(mesh, Models.WeakForms(field, BiLinearForm(lambda u, v: u.grad.ddot(v.grad)), computeM=BiLinearForm(lambda u, v: u.dot(v))))
         s.Solver_Set_Hyperbolic_Algorithm(dt=0.1)
+    elif sim.endswith(".3d"):
+        # the same simulation types on a three-dimensional patch (the component names x, y, z all exist)
+        from EasyFEA import Models, Simulations, SolverType
+        from . import patches
+        coords, connect = patches.star_patch("TETRA4")
+        mesh = patches.real_mesh("TETRA4", coords, connect)
+        base = sim[:-3]
+        if base == "Elastic":
+            s = Simulations.Elastic(mesh, Models.Elastic.Isotropic(3, E=3.0, v=0.25))
+        elif base == "Thermal":
+            s = Simulations.Thermal(mesh, Models.Thermal(k=1.5, c=0.8))
+        elif base == "PhaseField":
+            mat = Models.Elastic.Isotropic(3, E=3.0, v=0.25)
+            s = Simulations.PhaseField(mesh, Models.PhaseField(mat, Models.PhaseField.SplitType.Miehe, Models.PhaseField.ReguType.AT2, Gc=1.0, l0=0.5))
+        elif base == "HyperElastic":
+            s = Simulations.HyperElastic(mesh, Models.HyperElastic.NeoHookean(3, K=50.0), verbosity=False)
+        elif base == "InElastic":
+            IE = Models.InElastic
+            s = Simulations.InElastic(mesh, IE.Behavior(3, Models.Elastic.Isotropic(3, E=3.0, v=0.25), yieldSurface=IE.Yield.VonMises(0.003), hardening=IE.IsotropicHardening.Linear(0.4)))
+        elif base == "WeakForms":
+            from EasyFEA.FEM import Field, BiLinearForm
+            field = Field(mesh.groupElem, 3)
+            s = Simulations.WeakForms(mesh, Models.WeakForms(field, BiLinearForm(lambda u, v: u.grad.ddot(v.grad)), computeM=BiLinearForm(lambda u, v: u.dot(v))))
+            s.Solver_Set_Hyperbolic_Algorithm(dt=0.1)
+        else:
+            raise Unsupported(sim)
+        s.solver = SolverType.scipy
+        sim = base
     else:
         s = _mk(sim)
     if sim in ("Elastic", "Beam", "HyperElastic"):
@@ -480,8 +508,8 @@ def build(tier, seed):
     for dim in (2, 3):
         obs.append(Ob(f"C16.reactions.{dim}d", ob_reactions, (dim,), "X", ("EasyFEA/Simulations/_simu.py::_Simu.Solve",), bound="one loaded, constrained patch",
                       clause="reactions on the constrained boundary balance the applied loads", timeout=300))
-    for sim, sd in [(m_, s_) for m_ in ("Thermal", "Beam", "Beam3D", "PhaseField", "HyperElastic", "InElastic", "WeakForms") for s_ in seeds_]:
-        obs.append(Ob(f"C16.result.{sim}" + (f".s{sd}" if sd else ""), ob_result_other, (sim, seed + sd), "X", (f"EasyFEA/Simulations/_{sim.lower().replace('3d','')}.py::{sim.replace('3D','')}.Result",), bound="one small mesh, one arbitrary state",
+    for sim, sd in [(m_, s_) for m_ in ("Thermal", "Beam", "Beam3D", "PhaseField", "HyperElastic", "InElastic", "WeakForms", "Thermal.3d", "PhaseField.3d", "HyperElastic.3d", "InElastic.3d", "WeakForms.3d") for s_ in seeds_]:
+        obs.append(Ob(f"C16.result.{sim}" + (f".s{sd}" if sd else ""), ob_result_other, (sim, seed + sd), "X", (f"EasyFEA/Simulations/_{sim.split('.')[0].lower().replace('3d','')}.py::{sim.split('.')[0].replace('3D','')}.Result",), bound="one small mesh, one arbitrary state",
                       clause="every advertised result name is served; displacement components equal the columns of the vector result", timeout=300))
     for algo in ("elliptic", "parabolic", "newmark", "hht", "midpoint"):
         obs.append(Ob(f"C16.reaction.formula.{algo}", ob_calc_reaction, (algo,), "P", ("EasyFEA/Simulations/_simu.py::_Simu.Calc_Reaction",),
